@@ -327,24 +327,36 @@ FAMILIES = [
     NulFamily("c14_slice_convert", ["C14"], SEARCHER, CORE_MOD, GEN,
               "slice strategy, convert detection: exactly one binary notice, before any line; finish reports the first NUL's offset",
               SLOW_E2E_FUNCS + ("Core::detect_binary",), timeout=900, rules=searcher_rules(2)),
-    NulFamily("c14_reader_quit", ["C14"], SEARCHER, CORE_MOD, GEN,
-              "reader strategy, quit detection: delivered == search of the input cut at the first NUL (no NUL reaches the sink) + "
-              "one binary notice at that offset; (capacity, read size) in {(1,1),(2,3),(4,2)}",
+    NulFamily("c14_reader_quit_tiny", ["C14"], SEARCHER, CORE_MOD, GEN,
+              "reader strategy (capacity 1, 1-byte reads), quit detection: delivered is a PREFIX of the search of the input cut at the "
+              "first NUL, no NUL reaches the sink, one binary notice at that offset, finish reports it",
               READER_FUNCS + ("ReadByLine::fill", "LineBuffer::fill"), timeout=1200, rules=searcher_rules(2)),
-    NulFamily("c14_reader_convert", ["C14"], SEARCHER, CORE_MOD, GEN,
-              "reader strategy, convert detection: delivered == search of the input with every NUL replaced by the terminator + "
-              "one binary notice at the first NUL",
+    NulFamily("c14_reader_quit_wide", ["C14"], SEARCHER, CORE_MOD, GEN,
+              "reader strategy (capacity 4, 2-byte reads), quit detection: prefix / no NUL / one notice",
+              READER_FUNCS, timeout=1200, rules=searcher_rules(2)),
+    NulFamily("c14_reader_convert_tiny", ["C14"], SEARCHER, CORE_MOD, GEN,
+              "reader strategy (capacity 1, 1-byte reads), convert detection: delivered == search of the input with every NUL "
+              "replaced by the terminator + one binary notice at the first NUL",
               READER_FUNCS + ("line_buffer::replace_bytes",), timeout=1200, rules=searcher_rules(2), two=True),
-    ShapeFamily("c02_reader_ctx", ["C02"], SEARCHER, CORE_MOD, GEN,
-                "ReadByLine over LineBufferReader, (capacity, read size) in {(1,1),(2,3),(4,2)} with eager growth "
-                "== grep model (== slice strategy); A,B in 0..=1, invert, line numbers",
-                READER_FUNCS, timeout=900, rules=searcher_rules(2), shape_filter=lambda sh: sh.nl <= 3 and len(sh.hay) <= 6),
+    NulFamily("c14_reader_convert_mid", ["C14"], SEARCHER, CORE_MOD, GEN,
+              "reader strategy (capacity 2, 3-byte reads), convert detection", READER_FUNCS, timeout=1200,
+              rules=searcher_rules(2), two=True),
+    ShapeFamily("c02_reader_ctx_tiny", ["C02"], SEARCHER, CORE_MOD, GEN,
+                "ReadByLine over LineBufferReader with initial capacity 1 and 1-byte reads (a roll and a grow at every byte) "
+                "== grep model (== slice strategy); symbolic hit table, A,B in 0..=1, invert, line numbers",
+                READER_FUNCS, timeout=1200, rules=searcher_rules(2), shape_filter=lambda sh: sh.nl <= 3 and len(sh.hay) <= 6),
+    ShapeFamily("c02_reader_ctx_mid", ["C02"], SEARCHER, CORE_MOD, GEN,
+                "reader strategy, capacity 2 / 3-byte reads == grep model", READER_FUNCS, timeout=1200, rules=searcher_rules(2),
+                quick_shapes=["q_two", "q_blank_mid", "q_crlf_mix"], shape_filter=lambda sh: sh.nl <= 3 and len(sh.hay) <= 6),
+    ShapeFamily("c02_reader_ctx_wide", ["C02"], SEARCHER, CORE_MOD, GEN,
+                "reader strategy, capacity 4 / 2-byte reads == grep model", READER_FUNCS, timeout=1200, rules=searcher_rules(2),
+                quick_shapes=["q_two", "q_blank_mid", "q_nul"], shape_filter=lambda sh: sh.nl <= 3 and len(sh.hay) <= 6),
     ShapeFamily("c02_reader_stop", ["C02"], SEARCHER, CORE_MOD, GEN,
-                "reader strategy == grep model with stop-on-nonmatch ON (incl. final byte count == slice strategy's)",
-                READER_FUNCS, timeout=900, rules=searcher_rules(2), shape_filter=lambda sh: sh.nl <= 3 and len(sh.hay) <= 6),
+                "reader strategy (capacity 1, 1-byte reads) == grep model with stop-on-nonmatch ON (incl. final byte count == slice strategy's)",
+                READER_FUNCS, timeout=1200, rules=searcher_rules(2), quick_shapes=["q_two", "q_blank_mid"], shape_filter=lambda sh: sh.nl <= 3 and len(sh.hay) <= 6),
     ShapeFamily("c02_reader_passthru", ["C02"], SEARCHER, CORE_MOD, GEN,
-                "reader strategy == grep model with passthru ON",
-                READER_FUNCS, timeout=900, rules=searcher_rules(2), shape_filter=lambda sh: sh.nl <= 3 and len(sh.hay) <= 6),
+                "reader strategy (capacity 2, 3-byte reads) == grep model with passthru ON",
+                READER_FUNCS, timeout=1200, rules=searcher_rules(2), quick_shapes=["q_two", "q_blank_mid"], shape_filter=lambda sh: sh.nl <= 3 and len(sh.hay) <= 6),
     ShapeFamily("c16_slice", ["C16"], SEARCHER, CORE_MOD, GEN,
                 "slice strategy: sink refuses (stop) or fails at symbolic event index k: delivered == prefix of full "
                 "stream (+ exactly one finish after stop, none after error)",
@@ -690,3 +702,148 @@ def evidence(prop, tier, seed, obls, results, summ):
         "wall_s": round(summ["wall_s"], 1),
         "violations": summ["violations"],
     }
+
+
+# ----------------------------------------------------------------------------
+# Engine M runner (C06: MIR decision skeletons)
+
+
+class MObl:
+    engine = "M"
+
+    def __init__(self):
+        self.name = "c06_skip_decision"
+        self.props = ["C06"]
+        self.fn = self.name
+        self.shape = None
+        self.desc = ("Walk::skip_entry (serial) and Worker::generate_work (parallel) decision skeletons extracted from the nightly "
+                     "MIR dump: for every assignment of the shared Boolean atoms (ignored, is_stdout, size limit set, is_dir, over "
+                     "size, filter set, filter accepts, follow_links, is_symlink) the two walkers agree on whether the entry is "
+                     "handed on, and each equals the documented conjunction")
+        self.functions = ("ignore::walk::Walk::skip_entry", "ignore::walk::Worker::generate_work")
+
+
+def z3_cli(text, timeout_s=60):
+    import subprocess
+    p = subprocess.run(["z3", "-in", "-T:%d" % timeout_s], input=text, stdout=subprocess.PIPE, stderr=subprocess.PIPE, text=True)
+    out = p.stdout
+    first = out.strip().splitlines()[0] if out.strip() else ""
+    if first == "unsat":
+        return "unsat", out  # the (get-model) that follows necessarily errors
+    if "(error" in out:
+        return "error", out
+    return first, out
+
+
+def run_mir(group, ctx):
+    import json
+    import subprocess
+    import time
+    from . import mir as M
+    o = group[0]
+    res = []
+    t0 = time.time()
+
+    def mk(name, status, reason, **kw):
+        d = {"name": name, "fn": name, "status": status, "reason": reason, "engine": "mir+z3", "desc": o.desc}
+        d.update(kw)
+        return d
+
+    with K.Scratch("m" + ctx["prop"]) as sc:
+        try:
+            mir = M.dump_mir(sc.repo, os.path.join(sc.root, "mir-target"))
+            n1, b1 = M.function_body(mir, r"::skip_entry")
+            n2, b2 = M.function_body(mir, r"::generate_work")
+            p1 = M.paths_of(M.parse_blocks(b1), {})
+            p2 = M.paths_of(M.parse_blocks(b2), {"_5": ("param", "readdir")}, handed_on_call=r"walk::Worker::<'_>::send$")
+        except M.Inconclusive as e:
+            return [mk("c06_skip_decision", K.INCONCLUSIVE, "encoding could not be regenerated: %s" % e)]
+        atoms = M.atoms_of(p1, p2)
+        decl = "".join("(declare-const %s Bool)\n" % a for a in atoms)
+        # scope: entries below the root, no I/O errors
+        scope = "".join("(assert (not %s))\n" % a for a in atoms if a.endswith("_err") or a == "depth_is_0")
+        s_on, p_on = M.formula(p1, "on"), M.formula(p2, "on")
+        doc = ("(and (not ignored) (not (and stdout_known is_stdout)) (not (and size_limit_set (not is_dir) over_size)) "
+               "(not (and filter_set (not filter_accepts))))")
+        queries = [
+            ("c06_serial_eq_parallel", "(assert (xor %s %s))" % (s_on, p_on),
+             "serial and parallel walker hand on the same entries"),
+            ("c06_serial_is_documented", "(assert (xor %s %s))" % (s_on, doc),
+             "serial walker hands an entry on iff it is not ignored, not stdout, within the size limit and accepted by the filter"),
+            ("c06_parallel_is_documented", "(assert (xor %s %s))" % (p_on, doc),
+             "parallel walker hands an entry on iff the documented conjunction holds"),
+        ]
+        for need in ("ignored", "stdout_known", "is_stdout", "size_limit_set", "is_dir", "over_size", "filter_set", "filter_accepts"):
+            if need not in atoms:
+                return [mk("c06_skip_decision", K.INCONCLUSIVE, "expected decision atom `%s` not found in the MIR skeleton" % need)]
+        exe = None
+        for qname, body, what in queries:
+            # prefer a witness the native replay can stage (no stdout handle, no symlink following)
+            pref = "(assert (not stdout_known))\n(assert (not follow_links))\n"
+            text = "(set-logic ALL)\n" + decl + scope + pref + body + "\n(check-sat)\n(get-model)\n"
+            tq = time.time()
+            ans, out = z3_cli(text)
+            if ans == "unsat":
+                text = "(set-logic ALL)\n" + decl + scope + body + "\n(check-sat)\n(get-model)\n"
+                ans, out = z3_cli(text)
+            dt = time.time() - tq
+            if ans == "unsat":
+                res.append(mk(qname, K.OK, "unsat: holds for every assignment of %d atoms" % len(atoms), nontrivial=True,
+                              solver_s=dt, paths={"serial": len(p1), "parallel": len(p2)}, atoms=atoms))
+                continue
+            if ans != "sat":
+                res.append(mk(qname, K.INCONCLUSIVE, "z3: " + out[:300]))
+                continue
+            model = dict(re_findall_model(out))
+            asg = {a: model.get(a, "false") == "true" for a in atoms}
+            # replay natively on a real tree through both walkers
+            if exe is None:
+                exe, err = build_rgsmt(sc)
+            rep = None
+            detail = "witness %s" % json.dumps({k: v for k, v in asg.items() if not k.endswith("_err")}, sort_keys=True)
+            if exe and not asg.get("stdout_known") and not asg.get("follow_links"):
+                size = "none" if not asg["size_limit_set"] else ("over" if asg["over_size"] else "under")
+                flt = "none" if not asg["filter_set"] else ("accept" if asg["filter_accepts"] else "reject")
+                pr = subprocess.run([exe, "walkreplay", "--is-dir", "1" if asg["is_dir"] else "0", "--size-limit", size,
+                                     "--filter", flt, "--ignored", "1" if asg["ignored"] else "0"],
+                                    stdout=subprocess.PIPE, stderr=subprocess.STDOUT, text=True)
+                m = re_search_replay(pr.stdout)
+                if m:
+                    ser, par = m
+                    want = (not asg["ignored"]) and not (asg["size_limit_set"] and not asg["is_dir"] and asg["over_size"]) \
+                        and not (asg["filter_set"] and not asg["filter_accepts"])
+                    if qname == "c06_serial_eq_parallel":
+                        rep = ser != par
+                    elif qname == "c06_serial_is_documented":
+                        rep = ser != want
+                    else:
+                        rep = par != want
+                    detail += "; native replay on a real tree: serial yields=%s parallel yields=%s documented=%s" % (ser, par, want)
+            res.append(mk(qname, K.FAIL, what + " -- violated: " + detail,
+                          failed_checks=[(what, json.dumps(asg, sort_keys=True))], reproduced=rep,
+                          witness=json.dumps(asg, sort_keys=True), program=qname))
+    return res
+
+
+def re_findall_model(out):
+    import re
+    return re.findall(r"\(define-fun (\w+) \(\) Bool\s+(true|false)\)", out)
+
+
+def re_search_replay(out):
+    import re
+    m = re.search(r"serial=(\d) parallel=(\d)", out or "")
+    if not m:
+        return None
+    return m.group(1) == "1", m.group(2) == "1"
+
+
+RUNNERS["M"] = run_mir
+_obligations_khm = obligations
+
+
+def obligations(prop, tier, seed):  # noqa: F811
+    out = _obligations_khm(prop, tier, seed)
+    if prop == "C06":
+        out.append(MObl())
+    return out
